@@ -174,6 +174,21 @@ theorem carveESem_of_carveE {asg : List String} {e : CExpr} (h : CarveE asg e = 
   simp only [Bool.and_eq_true] at h ⊢
   exact ⟨carveNSem_of_carveN asg e h.1, h.2⟩
 
+/-- the condition-position carve-out contains what `if`/`for` asked of a condition before it was introduced: a
+    value-carved expression whose repaired compilation is `condOK` -/
+theorem carveCSem_of_carveESem {env : CEnv} {e : CExpr} (h : CarveESem env.assigned e = true)
+    (hok : (match compileExpr (fixedEnv env) e with | .ok cc => condOK cc | .error _ => true) = true) :
+    CarveCSem env e = true := by
+  unfold CarveESem at h
+  unfold CarveCSem
+  simp only [Bool.and_eq_true] at h ⊢
+  exact ⟨h.1, Bool.or_eq_true _ _ ▸ Or.inr hok⟩
+
+theorem carveCSem_of_carveE {env : CEnv} {e : CExpr} (h : CarveE env.assigned e = true)
+    (hok : (match compileExpr (fixedEnv env) e with | .ok cc => condOK cc | .error _ => true) = true) :
+    CarveCSem env e = true :=
+  carveCSem_of_carveESem (carveESem_of_carveE h) hok
+
 theorem assignCarveSem_of {op : String} {cd ce : CE} (h : assignCarve op cd ce = true) : assignCarveSem op cd ce = true := by
   unfold assignCarve at h
   unfold assignCarveSem
@@ -235,15 +250,15 @@ theorem carveSSem_of_carveS (env : CEnv) :
   | .ite x t none, h => by
       rw [CarveS] at h; rw [CarveSSem]
       simp only [Bool.and_eq_true] at h ⊢
-      exact ⟨⟨⟨carveESem_of_carveE h.1.1.1, h.1.1.2⟩, carveSsSem_of_carveSs env t h.1.2⟩, trivial⟩
+      exact ⟨⟨carveCSem_of_carveE h.1.1.1 h.1.1.2, carveSsSem_of_carveSs env t h.1.2⟩, trivial⟩
   | .ite x t (some e), h => by
       rw [CarveS] at h; rw [CarveSSem]
       simp only [Bool.and_eq_true] at h ⊢
-      exact ⟨⟨⟨carveESem_of_carveE h.1.1.1, h.1.1.2⟩, carveSsSem_of_carveSs env t h.1.2⟩, carveSsSem_of_carveSs env e h.2⟩
+      exact ⟨⟨carveCSem_of_carveE h.1.1.1 h.1.1.2, carveSsSem_of_carveSs env t h.1.2⟩, carveSsSem_of_carveSs env e h.2⟩
   | .for_ v x step b, h => by
       rw [CarveS] at h; rw [CarveSSem]
       simp only [Bool.and_eq_true] at h ⊢
-      exact ⟨⟨⟨h.1.1.1, carveESem_of_carveE h.1.1.2⟩, h.1.2⟩, carveSsSem_of_carveSs env b h.2⟩
+      exact ⟨⟨h.1.1.1, carveCSem_of_carveE h.1.1.2 h.1.2⟩, carveSsSem_of_carveSs env b h.2⟩
   | .jump e, h => by
       rw [CarveS] at h; rw [CarveSSem]
       simp only [Bool.and_eq_true] at h ⊢
